@@ -815,7 +815,7 @@ def _gen_limit_probe(rng, client, thorough):
     """Streams whose oversized element is never terminated (or far beyond the limits): buffering must stay bounded."""
     mh = rng.choice([0, 16, 64, 300, 1000])
     mb = rng.choice([0, 16, 64, 300, 1000])
-    bound = mh + mb + READ_QUANTUM + 256
+    bound = mh + mb + 2 * READ_QUANTUM + 256
     L = rng.choice([bound + 3000, bound + 9000, 2 * bound] + ([3 * bound, 8 * bound] if thorough else []))
     fill = _fill(rng, L)[:L]
     if not client:
